@@ -62,7 +62,7 @@ theorem rrepl_op (env : Env) (n : Str) (o : Op) (a Y : Str) (hn : validName n = 
     rcases List.mem_append.1 hx with h | h
     · exact noBrace_name hcs x h
     · exact noBrace_op o x h
-  have hsr := subOf_restOf_braces c (mid := cs ++ o.str) (a := a) Y hmid ha
+  have hsr := subOf_restOf_braces c (noBrace_name hall c (List.mem_cons_self ..)) (mid := cs ++ o.str) (a := a) Y hmid ha
   -- selectOp
   have hsel : selectOp ('$' :: '{' :: (c :: cs ++ (o.str ++ (a ++ '}' :: Y)))) = o := by
     have := selectOp_render ('$' :: '{' :: c :: cs) o (a ++ '}' :: Y) (by
